@@ -30,6 +30,7 @@ func envOr(k, d string) string {
 	}
 	return d
 }
+
 const harnessPkgPath = "verif/harness"
 
 type Program struct {
@@ -46,8 +47,12 @@ func loadProgram() (*Program, error) {
 		Env:  append(os.Environ(), "GOFLAGS=-mod=mod", "GOPROXY=off"),
 	}
 	// in-package exports for the harness are injected as an overlay (nothing is written to /repo)
+	cfg.Overlay = map[string][]byte{}
 	if b, err := os.ReadFile(harnessDir + "/overlay/clientip_export.go.txt"); err == nil {
-		cfg.Overlay = map[string][]byte{repoDir + "/clientip/zz_verif_export.go": b}
+		cfg.Overlay[repoDir+"/clientip/zz_verif_export.go"] = b
+	}
+	if b, err := os.ReadFile(harnessDir + "/overlay/fox_hook.go.txt"); err == nil {
+		cfg.Overlay[repoDir+"/zz_verif_hook.go"] = b
 	}
 	initial, err := packages.Load(cfg, ".")
 	if err != nil {
@@ -172,6 +177,16 @@ func main() {
 		os.Exit(cmdRun(os.Args[2:]))
 	case "job":
 		os.Exit(cmdJob(os.Args[2:]))
+	case "replay":
+		if len(os.Args) < 3 {
+			fatal(2, "usage: symgo replay <witness.json>")
+		}
+		rr := replayNative(os.Args[2])
+		fmt.Printf("native replay: %s %s\n", rr.outcome, rr.detail)
+		if rr.outcome == "OK" || rr.outcome == "ASSUME" {
+			os.Exit(0)
+		}
+		os.Exit(1)
 	default:
 		fatal(2, "unknown command %s", os.Args[1])
 	}
